@@ -665,7 +665,7 @@ class World:
         """SIGKILL one virtual process (and, since they are its children, its nested commands and jobs)."""
         if not p.alive:
             return
-        self._flush(p)
+        p.deferred = []      # announced but not begun: the operation it belongs to never starts
         at = p.req["op"] + ":" + os.path.basename(p.req.get("path") or "") + \
             (os.path.basename(p.req["argv"][0]) if p.req.get("argv") else "")
         p.reap(kill=True)
